@@ -5,6 +5,7 @@ import PoaVerif.Witness.D4
 import PoaVerif.Witness.D5
 import PoaVerif.Facts
 import PoaVerif.Lemmas.RunTotal
+import PoaVerif.Lemmas.Quiet
 /-
   C04 — no transaction sequence halts the chain; updates are always valid for CometBFT.
   FALSE of the code as stated (defect classes D2–D7); machine-checked witnesses below, plus what is proved.
@@ -126,6 +127,14 @@ theorem c04_partial (env : Env) (s : App) (c : CSet) (bs : List Block)
     (hpre : preAll env s c bs = true) (hbeg : beginOk env s c bs = true) :
     (runFrom env s c bs).2 = .done ∧ (runFrom env s c bs).1.length = bs.length :=
   runFrom_total env bs s c hpre hbeg
+
+/-- **C04 for every power-adjustment history** (see `Props.C02.c02_power_adjustments` for the hypothesis): the run
+    reaches its end with one step per block — block execution never returns an error or panics, and CometBFT accepts
+    every update list -/
+theorem c04_power_adjustments (g : Genesis) (hw : g.wf = true) (bs : List Block) (hq : QuietHistory g bs) :
+    ∃ first steps, run genEnv g bs = some (first, steps, RunEnd.done) ∧ steps.length = bs.length := by
+  obtain ⟨first, steps, h1, h2, _⟩ := quiet_history g hw bs hq
+  exact ⟨first, steps, h1, h2⟩
 
 /-- non-vacuity: blocks of the D3 witness history before the double SetPower lie inside `Pre` with successful
     BeginBlockers -/
